@@ -98,24 +98,39 @@ func mutate(t *rapid.T, b []byte) ([]byte, string) {
 			binary.BigEndian.PutUint32(b[x.off:], v)
 			notes = append(notes, fmt.Sprintf("%s.size=%d", x.typ, v))
 		case "size-wrap":
-			// a top-level box that is not the first one declares a size reaching (just) beyond the 32-bit offset range,
-			// so that offset+size wraps around to the start of an earlier box
-			var top []box
-			pp := 0
+			// a top-level box that does not start a chunk declares a size reaching (just) beyond the 32-bit offset range, so
+			// that offset + size wraps around to the start of an earlier box of the same chunk (the parser counts offsets from
+			// the end of the last complete mdat)
+			type tb struct {
+				box
+				rel int
+			}
+			var top []tb
+			pp, rel := 0, 0
 			for _, x := range bs {
 				if x.off == pp {
-					top = append(top, x)
+					top = append(top, tb{x, rel})
 					pp += x.size
+					rel += x.size
+					if x.typ == "mdat" {
+						rel = 0
+					}
 				}
 			}
-			if len(top) < 2 {
+			var cand []tb
+			for _, x := range top {
+				if x.rel > 0 {
+					cand = append(cand, x)
+				}
+			}
+			if len(cand) == 0 {
 				continue
 			}
-			k := rapid.IntRange(1, len(top)-1).Draw(t, "wrapbox")
-			back := top[rapid.IntRange(0, k).Draw(t, "wrapto")].off
-			v := uint32((uint64(1)<<32 - uint64(top[k].off) + uint64(back)) & 0xffffffff)
-			binary.BigEndian.PutUint32(b[top[k].off:], v)
-			notes = append(notes, fmt.Sprintf("%s.size=%#x (wraps to offset %d)", top[k].typ, v, back))
+			x := rapid.SampledFrom(cand).Draw(t, "wrapbox")
+			back := rapid.SampledFrom([]int{0, 0, 8, x.rel}).Draw(t, "wrapto")
+			v := uint32((uint64(1)<<32 - uint64(x.rel) + uint64(back)) & 0xffffffff)
+			binary.BigEndian.PutUint32(b[x.off:], v)
+			notes = append(notes, fmt.Sprintf("%s.size=%#x (chunk-relative offset %d wraps to %d)", x.typ, v, x.rel, back))
 		case "size-rel":
 			x := rapid.SampledFrom(bs).Draw(t, "box")
 			d := rapid.SampledFrom([]int{-9, -8, -4, -1, 1, 4, 8, 9, 1 << 10}).Draw(t, "dsize")
@@ -207,13 +222,13 @@ func mutate(t *rapid.T, b []byte) ([]byte, string) {
 // rejected without allocation, and used to make the parser spin); anything between is cut to 24 bits.
 func sanitize(b []byte) (int, []byte) {
 	cut := 0
-	p := uint64(0)
+	p, rel := uint64(0), uint64(0) // rel: offset from the end of the last complete mdat - what the parser adds box sizes to
 	for steps := 0; p+8 <= uint64(len(b)) && steps < 1000; steps++ {
 		sz := uint64(binary.BigEndian.Uint32(b[p:]))
 		if sz < 8 {
 			break
 		}
-		if sz >= 1<<24 && p+sz <= 0xffffffff {
+		if sz >= 1<<24 && rel+sz <= 0xffffffff {
 			b[p] = 0
 			sz &= 0xffffff
 			cut++
@@ -221,10 +236,15 @@ func sanitize(b []byte) (int, []byte) {
 				break
 			}
 		}
-		if p+sz > 0xffffffff {
+		if rel+sz > 0xffffffff {
 			break
 		}
+		isMdat := string(b[p+4:p+8]) == "mdat"
 		p += sz
+		rel += sz
+		if isMdat && p <= uint64(len(b)) {
+			rel = 0
+		}
 	}
 	return cut, b
 }
